@@ -242,9 +242,27 @@ class Session:
         self.p._vraw = []
         self.p._vauth = None
         self.crash = None
+        self.delivered = b''
+        self.undispatched = None     # (read index, complete lines delivered, lines handed over) at the first lag
+        self.reads = 0
         self.p.makeConnection(self.t)
 
     def feed(self, data):
+        was_line_mode = not self.p._authenticated
+        self._feed(data)
+        self.reads += 1
+        if was_line_mode:
+            self.delivered += data
+        # every complete line delivered so far (whatever the reads were) must have reached the
+        # authenticator, unless the connection was closed or the handshake is over
+        if (self.undispatched is None and not self.p._authenticated and not self.t.disconnecting
+                and self.crash is None):
+            complete = self.delivered.count(CRLF)
+            handed = sum(1 for e in self.log if e[0] == 'R')
+            if handed < complete:
+                self.undispatched = (self.reads, complete, handed)
+
+    def _feed(self, data):
         try:
             self.p.dataReceived(data)
         except UnicodeDecodeError:
@@ -452,7 +470,43 @@ def judge(ctx, world, stream, case, envs, model_out):
     for key, what in monitor(world, case['unix'], evs, bw, bad, bool(s.p._authenticated)):
         ctx.violation(key, what, inp=dict(case, kind='run'), observed=impl,
                       expected='see the property statement of C07')
+    judge_splitting(ctx, world, case, envs, s, impl)
     return s, evs
+
+
+def collapse_closes(canon_text):
+    """loseConnection may be called once per read once the limit is exceeded: keep the first."""
+    evs, _, final = canon_text.partition(' | ')
+    out, closed = [], False
+    for e in evs.split(' '):
+        if e == 'C':
+            if closed:
+                continue
+            closed = True
+        out.append(e)
+    return ' '.join(out) + ' | ' + final
+
+
+def judge_splitting(ctx, world, case, envs, s, impl):
+    """Implementation only: (a) after every read, each complete line delivered so far has been handed to
+    the authenticator (else the client sits on a line the server is waiting to be answered: a stall);
+    (b) the same bytes in one read give the same outcome."""
+    if s.undispatched is not None:
+        rd, complete, handed = s.undispatched
+        ctx.violation('complete-line-not-dispatched',
+                      'after read %d the client has received %d complete server lines but handled only %d: '
+                      'a line sits in the buffer unanswered (the handshake stalls under this splitting)'
+                      % (rd, complete, handed),
+                      inp=dict(case, kind='run'), observed=impl,
+                      expected='every complete line is answered, whatever the splitting into reads')
+    if len(case['chunks']) > 1:
+        whole = dict(case, chunks=[hx(b''.join(unhx(c) for c in case['chunks']))])
+        w = run_impl(world, whole, envs).canonical()
+        if collapse_closes(w) != collapse_closes(impl):
+            ctx.violation('outcome-depends-on-read-splitting',
+                          'the same server bytes give a different outcome when split into %d reads'
+                          % len(case['chunks']),
+                          inp=dict(case, kind='run'), observed=impl, expected=w)
 
 
 # --------------------------------------------------------------------------------------------
@@ -658,8 +712,21 @@ SRV = dict(guid_hex=b'1234deadbeef', ctxname=b'ctxa', cid=b'7', cookie=b'c00c1e'
 MECHS = (b'EXTERNAL', b'DBUS_COOKIE_SHA1', b'ANONYMOUS')
 
 
-def spec_handshake(world, envs, cfg):
-    """Real client against the Python reference server.  Returns (transcript, session, server)."""
+def deliveries(maxlen):
+    """Ways of cutting one server answer (line + CRLF) into reads: whole, every single cut position
+    from the front and from the back, byte by byte."""
+    ds = [('whole', lambda x: [x])]
+    for k in range(1, maxlen):
+        ds.append(('cut@%d' % k, (lambda k: lambda x: [x[:k], x[k:]] if k < len(x) else [x])(k)))
+    for k in range(1, 4):
+        ds.append(('cut@-%d' % k, (lambda k: lambda x: [x[:-k], x[-k:]] if k < len(x) else [x])(k)))
+    ds.append(('bytewise', lambda x: [x[i:i + 1] for i in range(len(x))]))
+    return ds
+
+
+def spec_handshake(world, envs, cfg, deliver=None):
+    """Real client against the Python reference server.  Returns (transcript, session, server).
+    deliver: how one server answer (with its CRLF) is cut into reads; None = one read per round."""
     srv = RefServer(set(cfg['accepts']), cfg['fd_agree'], **SRV)
     s = Session(world, cfg['unix'], envs[cfg['env']])
     transcript = []
@@ -678,8 +745,12 @@ def spec_handshake(world, envs, cfg):
         for r in replies:
             transcript.append('S:' + hx(r))
         # the model feeds the replies of one round as one batch of lines
-        if replies:
+        if replies and deliver is None:
             s.feed(b''.join(r + CRLF for r in replies))
+        else:
+            for r in replies:
+                for piece in deliver(r + CRLF):
+                    s.feed(piece)
     return transcript, s, srv
 
 
@@ -726,12 +797,27 @@ def run_spec_handshakes(ctx, world, envs):
     out = ctx.model([hs_driver_line(dict(c, accepts=[a.encode() for a in c['accepts']]), envs) for c in cfgs])
     for c, m in zip(cfgs, out or [None] * len(cfgs)):
         cfg = dict(c, accepts=[a.encode() for a in c['accepts']])
-        judge_handshake(ctx, world, envs, cfg, c, m)
+        base = judge_handshake(ctx, world, envs, cfg, c, m)
+        if c['env'] in ('good', 'nodir'):
+            # the same handshake with every server answer cut at every single position / byte by byte
+            for name, deliver in deliveries(base[1]):
+                if name != 'whole':
+                    judge_handshake(ctx, world, envs, cfg, dict(c, delivery=name), None, deliver=deliver, base=base[0])
     return len(cfgs)
 
 
-def judge_handshake(ctx, world, envs, cfg, shown, m):
-    transcript, s, srv = spec_handshake(world, envs, cfg)
+def delivery_by_name(name):
+    for n, d in deliveries(400):
+        if n == name:
+            return d
+    return None
+
+
+def judge_handshake(ctx, world, envs, cfg, shown, m, deliver=None, base=None):
+    """deliver/base: a split delivery of the server answers, judged against the unsplit outcome `base`
+    (implementation only).  Returns (canonical outcome, longest server answer + 2)."""
+    stream = 'handshake-spec-server' if deliver is None else 'handshake-splittings'
+    transcript, s, srv = spec_handshake(world, envs, cfg, deliver)
     canon_t = []
     for x in transcript:
         l = unhx(x[2:])
@@ -742,21 +828,38 @@ def judge_handshake(ctx, world, envs, cfg, shown, m):
     impl = ' '.join(canon_t) + ' | client=%d server=%s disc=%d' % (bool(s.p._authenticated), state,
                                                                  bool(s.t.disconnecting))
     ctx.impl_trace()
-    ctx.case('handshake-spec-server', sample=shown)
+    ctx.case(stream, sample=shown)
     done = bool(s.p._authenticated) and srv.state == 'Authenticated'
-    ctx.stat('hs:%s' % ('complete' if done else 'incomplete'))
+    ctx.stat('%s:%s' % ('hs' if deliver is None else 'hs-split', 'complete' if done else 'incomplete'))
     if m is not None and m != impl:
         ctx.disagree('handshake-spec-server', dict(shown, kind='hs'), m, impl)
+    if s.undispatched is not None:
+        ctx.violation('complete-line-not-dispatched',
+                      'a complete server answer sits in the client buffer unanswered (%s): the handshake stalls; '
+                      'buffer %r' % (shown.get('delivery', 'one read per answer'), bytes(s.p._buffer[:60])),
+                      inp=dict(shown, kind='hs'), observed=impl,
+                      expected='every complete line is answered, whatever the splitting into reads')
+    if base is not None and base != impl:
+        ctx.violation('outcome-depends-on-read-splitting',
+                      'the handshake against the reference server runs differently when its answers are '
+                      'delivered %s' % shown.get('delivery'),
+                      inp=dict(shown, kind='hs'), observed=impl, expected=base)
     evs, bw, bad = s.events()
     for key, what in monitor(world, cfg['unix'], evs, bw, bad, bool(s.p._authenticated)):
         ctx.violation(key, what, inp=dict(shown, kind='hs'), observed=impl, expected='see the property statement of C07')
     if expected_complete(cfg, envs) and not done:
         key, what = hs_key(transcript)
+        if s.undispatched is not None:
+            key, what = ('handshake-stalls-under-read-splitting',
+                         'the handshake against the reference server stalls when its answers are delivered %s: a '
+                         'complete answer stays in the client buffer' % shown.get('delivery', 'one read per answer'))
         ctx.violation(key, what + ' (server accepts %s, %s transport, descriptor negotiation answered with %s)'
                       % ('+'.join(shown['accepts']), 'UNIX' if cfg['unix'] else 'non-UNIX',
                          'AGREE_UNIX_FD' if cfg['fd_agree'] else 'ERROR'),
                       inp=dict(shown, kind='hs'), observed=impl,
                       expected='both sides authenticated: the server accepts a mechanism the client offers')
+    longest = max([len(unhx(x[2:])) for x in transcript if x[:1] == 'S'] or [0]) + 2
+    return impl, longest
 
 
 # --------------------------------------------------------------------------------------------
@@ -801,58 +904,91 @@ def run_real_bus(ctx, world, envs, tmp):
                     def rawDBusMessageReceived(self, raw):
                         pass
 
-                slog = []
-                st = FakeTransport(slog)
-                st.socket = FakeSocket()
-                sp = Srv()
-                sp.factory = FakeFactory()
-                sp.makeConnection(st)
-                s = Session(world, unix, envs['good'])
-                srv_exc = None
-                srv_ok = False
-                cpos = spos = 0
-                for _ in range(40):
-                    moved = False
-                    # client -> server
-                    cw = [e for e in s.log if e[0] in ('w', 'ws')]
-                    for e in cw[cpos:]:
-                        data = e[1] if e[0] == 'w' else b''.join(e[1])
-                        moved = True
-                        if srv_exc is None and not st.disconnecting:
-                            try:
-                                sp.dataReceived(data)
-                            except Exception as ex:
-                                srv_exc = type(ex).__name__
-                    cpos = len(cw)
-                    sw = [e for e in slog if e[0] in ('w', 'ws')]
-                    for e in sw[spos:]:
-                        data = e[1] if e[0] == 'w' else b''.join(e[1])
-                        if data.startswith(b'OK '):
-                            srv_ok = True
-                        moved = True
-                        s.feed(data)
-                    spos = len(sw)
-                    if not moved:
-                        break
-                done = bool(s.p._authenticated) and bool(sp._authenticated)
-                name = '+'.join(m.decode() for m in acc)
-                outcome = 'complete' if done else ('server-exception-' + srv_exc if srv_exc else
-                                                   ('server-closed' if st.disconnecting else 'incomplete'))
-                ctx.stat('realbus:%s:%s:%s' % (name, 'unix' if unix else 'tcp', outcome))
-                ctx.case('handshake-real-bus', sample={'accepts': name, 'unix': unix})
-                ctx.impl_trace()
-                evs, bw, bad = s.events()
-                inp = {'kind': 'realbus', 'accepts': [m.decode() for m in acc], 'unix': unix}
-                for key, what in monitor(world, unix, evs, bw, bad, bool(s.p._authenticated)):
-                    ctx.violation(key, what, inp=inp, observed=' '.join(evs), expected='see the property statement of C07')
-                if srv_ok and not done and srv_exc is None:
-                    key, what = hs_key(sorted_exchange(evs))
-                    ctx.violation(key, what + ' (real BusAuthenticator accepting %s, %s transport)'
-                                  % (name, 'UNIX' if unix else 'non-UNIX'), inp=inp, observed=' '.join(evs),
-                                  expected='the bus sent OK: the handshake completes')
-                elif not done:
-                    ctx.note('real bus, accepts %s, %s: handshake %s (server side: see C06)'
-                             % (name, 'unix' if unix else 'tcp', outcome))
+                base_done, longest = one_real_bus(ctx, world, envs, Srv, FakeSocket, FakeFactory, acc, unix,
+                                                  'whole', None, None)
+                for dname, deliver in deliveries(longest):
+                    if dname != 'whole':
+                        one_real_bus(ctx, world, envs, Srv, FakeSocket, FakeFactory, acc, unix, dname, deliver,
+                                     base_done)
+
+
+def one_real_bus(ctx, world, envs, Srv, FakeSocket, FakeFactory, acc, unix, dname, deliver, base_done):
+    """One handshake real client <-> real bus; the client's reads are the server's writes cut by `deliver`."""
+    slog = []
+    st = FakeTransport(slog)
+    st.socket = FakeSocket()
+    sp = Srv()
+    sp.factory = FakeFactory()
+    sp.makeConnection(st)
+    s = Session(world, unix, envs['good'])
+    srv_exc = None
+    srv_ok = False
+    longest = 0
+    cpos = spos = 0
+    for _ in range(40):
+        moved = False
+        # client -> server
+        cw = [e for e in s.log if e[0] in ('w', 'ws')]
+        for e in cw[cpos:]:
+            data = e[1] if e[0] == 'w' else b''.join(e[1])
+            moved = True
+            if srv_exc is None and not st.disconnecting:
+                try:
+                    sp.dataReceived(data)
+                except Exception as ex:
+                    srv_exc = type(ex).__name__
+        cpos = len(cw)
+        sw = [e for e in slog if e[0] in ('w', 'ws')]
+        for e in sw[spos:]:
+            data = e[1] if e[0] == 'w' else b''.join(e[1])
+            if data.startswith(b'OK '):
+                srv_ok = True
+            longest = max(longest, len(data))
+            moved = True
+            for piece in ([data] if deliver is None else deliver(data)):
+                s.feed(piece)
+        spos = len(sw)
+        if not moved:
+            break
+    done = bool(s.p._authenticated) and bool(sp._authenticated)
+    name = '+'.join(m.decode() for m in acc)
+    outcome = 'complete' if done else ('server-exception-' + srv_exc if srv_exc else
+                                       ('server-closed' if st.disconnecting else 'incomplete'))
+    if deliver is None:
+        ctx.stat('realbus:%s:%s:%s' % (name, 'unix' if unix else 'tcp', outcome))
+    else:
+        ctx.stat('realbus-split:%s' % outcome)
+    ctx.case('handshake-real-bus', sample={'accepts': name, 'unix': unix, 'delivery': dname})
+    ctx.impl_trace()
+    evs, bw, bad = s.events()
+    inp = {'kind': 'realbus', 'accepts': [m.decode() for m in acc], 'unix': unix, 'delivery': dname}
+    for key, what in monitor(world, unix, evs, bw, bad, bool(s.p._authenticated)):
+        ctx.violation(key, what, inp=inp, observed=' '.join(evs), expected='see the property statement of C07')
+    if s.undispatched is not None:
+        ctx.violation('complete-line-not-dispatched',
+                      'a complete answer of the real bus sits in the client buffer unanswered (delivered %s): '
+                      'the handshake stalls; buffer %r' % (dname, bytes(s.p._buffer[:60])),
+                      inp=inp, observed=' '.join(evs),
+                      expected='every complete line is answered, whatever the splitting into reads')
+    if base_done is not None and base_done != done and srv_exc is None:
+        ctx.violation('outcome-depends-on-read-splitting',
+                      'the handshake against the real bus (accepting %s) %s when the answers arrive in one read '
+                      'each but %s when delivered %s' % (name, 'completes' if base_done else 'fails',
+                                                         'completes' if done else 'fails', dname),
+                      inp=inp, observed=' '.join(evs), expected='the same outcome for every splitting')
+    if srv_ok and not done and srv_exc is None:
+        key, what = hs_key(sorted_exchange(evs))
+        if s.undispatched is not None:
+            key, what = ('handshake-stalls-under-read-splitting',
+                         'the handshake stalls when the answers are delivered %s: a complete answer stays in the '
+                         'client buffer' % dname)
+        ctx.violation(key, what + ' (real BusAuthenticator accepting %s, %s transport)'
+                      % (name, 'UNIX' if unix else 'non-UNIX'), inp=inp, observed=' '.join(evs),
+                      expected='the bus sent OK: the handshake completes')
+    elif not done and deliver is None:
+        ctx.note('real bus, accepts %s, %s: handshake %s (server side: see C06)'
+                 % (name, 'unix' if unix else 'tcp', outcome))
+    return done, longest
 
 
 def sorted_exchange(evs):
@@ -916,7 +1052,10 @@ def _run(ctx, world, envs, tmp):
             cfg = dict(inp, accepts=[a.encode() for a in inp['accepts']])
             shown = {k: inp[k] for k in ('accepts', 'unix', 'fd_agree', 'env')}
             m = ctx.model([hs_driver_line(cfg, envs)])
-            judge_handshake(ctx, world, envs, cfg, shown, m[0] if m else None)
+            base = judge_handshake(ctx, world, envs, cfg, shown, m[0] if m else None)
+            if inp.get('delivery'):
+                judge_handshake(ctx, world, envs, cfg, dict(shown, delivery=inp['delivery']), None,
+                                deliver=delivery_by_name(inp['delivery']), base=base[0])
     if corpus_cases:
         batch(ctx, world, 'lines-exhaustive', corpus_cases, envs)
 
@@ -1004,7 +1143,10 @@ def replay(ctx, data):
             cfg = dict(inp, accepts=[a.encode() for a in inp['accepts']])
             shown = {k: inp[k] for k in ('accepts', 'unix', 'fd_agree', 'env')}
             m = ctx.model([hs_driver_line(cfg, envs)])
-            judge_handshake(ctx, world, envs, cfg, shown, m[0] if m else None)
+            base = judge_handshake(ctx, world, envs, cfg, shown, m[0] if m else None)
+            if inp.get('delivery'):
+                judge_handshake(ctx, world, envs, cfg, dict(shown, delivery=inp['delivery']), None,
+                                deliver=delivery_by_name(inp['delivery']), base=base[0])
         else:
             run_real_bus(ctx, world, envs, tmp)
     finally:
